@@ -481,6 +481,32 @@ Definition measure_statistic (fs : filter_set) (d : doc) : statistic :=
      st_links_selected :=
        length (filter (is_link_selected fs d) (flat_map (fun e : str * str * opdef => links_or_nil (od_raw (snd e))) sel)) |}.
 
+(* ---- specs/openapi/schemas.py:868 MethodMap = schema[path]; generation/hypothesis/builder.py:507 ---------- *)
+(* requests.structures.CaseInsensitiveDict(path_item): one slot per lower-cased key, at the position of its first
+   insertion, remembering the spelling of the LAST insertion *)
+Fixpoint ci_insert (k : str) (acc : list str) : list str :=
+  match acc with
+  | [] => [k]
+  | x :: r => if str_eqb (lower_ascii x) (lower_ascii k) then k :: r else x :: ci_insert k r
+  end.
+Definition ci_keys (keys : list str) : list str := fold_left (fun acc k => ci_insert k acc) keys [].
+(* MethodMap.__iter__ / __len__: EVERY key of the path item (methods of unselected operations and non-method keys
+   included); the filter set of the schema is not consulted *)
+Definition method_map_keys (fs : filter_set) (item : path_item) : list str := ci_keys (map fst item).
+(* builder.py:392 the default unexpected methods (HEAD is left out) *)
+Definition default_unexpected_methods : list str := [
+  [103;101;116]%N; [112;117;116]%N; [112;111;115;116]%N; [100;101;108;101;116;101]%N;
+  [111;112;116;105;111;110;115]%N; [112;97;116;99;104]%N; [116;114;97;99;101]%N ].
+(* builder.py:507 coverage phase, negative mode: unexpected_methods - set(operation.schema[operation.path]) *)
+Definition unspecified_methods (fs : filter_set) (item : path_item) : list str :=
+  filter (fun m => negb (existsb (str_eqb m) (method_map_keys fs item))) default_unexpected_methods.
+(* no two keys of a path item are equal up to ASCII case *)
+Fixpoint ci_distinct (keys : list str) : bool :=
+  match keys with
+  | [] => true
+  | k :: r => negb (existsb (fun x => str_eqb (lower_ascii x) (lower_ascii k)) r) && ci_distinct r
+  end.
+
 (* ---- pytest/lazy.py:297 get_schema: schema.clone(filter_set=<the LazySchema one>) --------------- *)
 Definition lazy_filter_set (fixture_fs lazy_fs : filter_set) : filter_set := lazy_fs.
 Definition lazy_operations (fixture_fs lazy_fs : filter_set) (d : doc) : list op :=
@@ -619,14 +645,16 @@ Inductive outcome :=
 | OOk (offered : list (str * str))                       (* (path, method key) of list(schema.get_all_operations()) *)
       (stat : nat * nat * nat * nat)                     (* operations total, selected, links total, selected *)
       (iterated : nat)                                   (* len(list(schema._operation_iter())) *)
-      (transitions : option (list (str * str * str * str))).
+      (transitions : option (list (str * str * str * str)))
+      (maps : list (str * list str * list str)).         (* path, list(schema[path]), methods the coverage phase adds *)
 
 Definition observe (fs : filter_set) (d : doc) : outcome :=
   let st := measure_statistic fs d in
   OOk (map (fun o => (o_path o, o_method o)) (get_all_operations fs d))
       (st_ops_total st, st_ops_selected st, st_links_total st, st_links_selected st)
       (length (operation_iter fs d))
-      (option_map (map (fun t => (t_source t, t_status t, t_name t, t_target t))) (collect_transitions fs d)).
+      (option_map (map (fun t => (t_source t, t_status t, t_name t, t_target t))) (collect_transitions fs d))
+      (map (fun pi : str * path_item => (fst pi, method_map_keys fs (snd pi), unspecified_methods fs (snd pi))) d).
 Definition run_case (d : doc) (cs : list call) : outcome :=
   match apply_calls cs fs_empty 0 with
   | inl fs => observe fs d
